@@ -3,6 +3,8 @@
 import itertools
 from fractions import Fraction
 
+import os
+
 import numpy as np
 
 from .. import ring, npmodel, micro
@@ -269,6 +271,42 @@ def run_selection(col, cell_type, elname, nnodes):
                 return gotk == sorted(want), "%s: selected %d faces, expected %d" % (w, len(gotk), len(want))
             col.check("C13.O4", "%s only_surface=%s mask=%d" % (cell_type, only_surface, mi),
                       "surface = faces whose node set occurs exactly once; a point mask keeps exactly the faces all of whose points satisfy it", chk)
+
+    # the selection is a property of the faces' point *sets*: it must not depend on how the points are numbered.  For every pair of
+    # distinct faces that share points, the points are renumbered such that the shared points receive the smallest (resp. the largest)
+    # ids -- the adversarial numberings for any face key that is not an injective function of the whole point set.
+    fsets = []
+    for k in keys:
+        if k not in fsets:
+            fsets.append(k)
+    pairs = [(a, b) for i, a in enumerate(fsets) for b in fsets[i + 1:] if set(a) & set(b)]
+    if os.environ.get("FVERIF_TIER") != "thorough":
+        pairs = pairs[::3]
+    relab = []
+    for a, b in pairs:
+        shared = sorted(set(a) & set(b))
+        rest = [p for p in range(npts) if p not in shared]
+        for variant in ("low", "high"):
+            order_ = shared + rest if variant == "low" else rest + shared
+            new_id = np.empty(npts, dtype=int)
+            new_id[order_] = np.arange(npts)
+            relab.append((variant, new_id))
+
+    def chk_relabel():
+        bad = []
+        quad = it.call(GLB, [], dict(order=order, dim=dim))
+        for variant, new_id in relab:
+            inv = np.argsort(new_id)
+            m2 = ConcreteMesh(points[inv], new_id[np.array(cells)], cell_type)
+            reg = it.call(cls, [m2, el, quad], dict(grad=False, only_surface=True, mask=None))
+            got = npmodel.to_int_array(np.asarray(it.getattr(it.getattr(reg, "mesh"), "cells_faces")))
+            gotk = sorted(tuple(sorted(inv[f].tolist())) for f in got)
+            want = sorted(k for k in keys if keys.count(k) == 1)
+            if gotk != want:
+                bad.append((variant, len(gotk), len(want)))
+        return not bad, "%s: %d of %d renumberings select a different face set, e.g. %s" % (w, len(bad), len(relab), bad[:2])
+    col.check("C13.O4", "%s surface faces independent of the point numbering (%d renumberings)" % (cell_type, len(relab)),
+              "for every renumbering of the points the selected surface is the same set of faces (faces sharing points get the smallest / largest ids)", chk_relabel)
 
     # closure and flux on this (distorted, exact rational) mesh
     def chk_closure():
